@@ -60,10 +60,36 @@ theorem obsOf_plain_of_empty {s : Style} (hA : s.attributes &&& s.setAttributes 
 
 theorem sgrReset_eq : sgrReset = sgrOpen ['0'] := rfl
 
+/-- the style after SGR 0 has nothing set but, in the repaired variant, the hyperlink -/
+theorem resetOf_facts (cfg : Cfg) (st : Style) :
+    Inv (resetOf cfg st) ∧ (resetOf cfg st).color = none ∧ (resetOf cfg st).bgcolor = none ∧
+      (resetOf cfg st).setAttributes = 0 := by
+  unfold resetOf
+  split
+  · exact ⟨inv_null, rfl, rfl, rfl⟩
+  · split
+    · exact ⟨⟨by simp [linkOnly], by simp [linkOnly], by intro h; cases h⟩, rfl, rfl, rfl⟩
+    · exact ⟨inv_null, rfl, rfl, rfl⟩
+
+theorem resetOf_nolink (cfg : Cfg) {st : Style} (h : strTruthy st.link = false) : resetOf cfg st = Style.null := by
+  unfold resetOf
+  split
+  · rfl
+  · simp [h]
+
+theorem strTruthy_of_linkVal_none {l : Option (List Char)} (h : linkVal l = none) : strTruthy l = false := by
+  unfold linkVal at h
+  split at h
+  · rename_i ht
+    cases l with
+    | none => simp [strTruthy] at ht
+    | some x => cases h
+  · rename_i ht; simpa using ht
+
 theorem R_reset (cfg : Cfg) (st : Style) (rest acc : List Char) :
-    R cfg st (sgrReset ++ rest) acc = push (flushRuns st acc) (R cfg Style.null rest []) := by
+    R cfg st (sgrReset ++ rest) acc = push (flushRuns st acc) (R cfg (resetOf cfg st) rest []) := by
   rw [sgrReset_eq]
-  apply R_sgr cfg st Style.null ['0'] rest acc [0]
+  apply R_sgr cfg st (resetOf cfg st) ['0'] rest acc [0]
   · intro c hc; simp at hc; subst hc; decide
   · simp
   · have h := sgrCodes_plist cfg [(natStr 0, 0)] (by intro p hp; simp at hp; subst hp; exact natStr_paramOk (n := 0) (by decide)) (by simp)
@@ -72,7 +98,9 @@ theorem R_reset (cfg : Cfg) (st : Style) (rest acc : List Char) :
 
 theorem blank_updateLink_none (v : StyleVariant) {st : Style} (hi : Inv st) (hc : st.color = none) (hg : st.bgcolor = none)
     (hs : st.setAttributes = 0) : Blank (updateLink v st none) :=
-  ⟨inv_updateLink v hi none, hc, hg, hs, rfl⟩
+  ⟨inv_updateLink v hi none, hc, hg, hs, by
+    show strTruthy (storedLink v none) = false
+    unfold storedLink; split <;> rfl⟩
 
 theorem R_oscClose (cfg : Cfg) (st : Style) (rest acc : List Char) :
     R cfg st (oscClose ++ rest) acc = push (flushRuns st acc) (R cfg (updateLink cfg.sv st none) rest []) := by
@@ -137,13 +165,13 @@ theorem noCR_oscOpen {id link : List Char} (hi : ∀ c ∈ id, c ≠ '\r') (hl :
 state to a blank state, and the characters of the segment come out with the segment's observable style. -/
 theorem seg_roundtrip (cfg : Cfg) (g : Seg) (hg : SegOk g) (st : Style) (hst : Blank st) (acc : List Char)
     (hacc : textOk acc = true) :
-    ∃ x, encodeSeg g = .ok x ∧ (∀ c ∈ x, c ≠ '\r') ∧
+    ∃ x, encodeSeg false g = .ok x ∧ (∀ c ∈ x, c ≠ '\r') ∧
       ∃ st1 acc1 pre, Blank st1 ∧ textOk acc1 = true ∧
         charsOf pre ++ acc1.map (·, obs0) = acc.map (·, obs0) ++ g.text.map (·, obsOpt g.style) ∧
         ∀ rest, R cfg st (x ++ rest) acc = push pre (R cfg st1 rest acc1) := by
   -- the segment is written as its bare text
-  have plain : obsOpt g.style = obs0 ∨ g.text = [] → encodeSeg g = .ok g.text →
-      ∃ x, encodeSeg g = .ok x ∧ (∀ c ∈ x, c ≠ '\r') ∧
+  have plain : obsOpt g.style = obs0 ∨ g.text = [] → encodeSeg false g = .ok g.text →
+      ∃ x, encodeSeg false g = .ok x ∧ (∀ c ∈ x, c ≠ '\r') ∧
       ∃ st1 acc1 pre, Blank st1 ∧ textOk acc1 = true ∧
         charsOf pre ++ acc1.map (·, obs0) = acc.map (·, obs0) ++ g.text.map (·, obsOpt g.style) ∧
         ∀ rest, R cfg st (x ++ rest) acc = push pre (R cfg st1 rest acc1) := by
@@ -200,6 +228,11 @@ theorem seg_roundtrip (cfg : Cfg) (g : Seg) (hg : SegOk g) (st : Style) (hst : B
         simp only [idOk, List.all_eq_true, Bool.and_eq_true, bne_iff_ne, ne_eq] at this
         exact (this c hc).1.2
       let sa := updateLink cfg.sv st (some link)
+      have hsalink : sa.link = some link := by
+        show storedLink cfg.sv (some link) = some link
+        cases link with
+        | nil => exact absurd rfl hlne
+        | cons a b => rfl
       have hsaInv : Inv sa := inv_updateLink cfg.sv hst.inv _
       have hsaNN : sa.isNull = false := rfl
       by_cases hps : ps = []
@@ -223,7 +256,7 @@ theorem seg_roundtrip (cfg : Cfg) (g : Seg) (hg : SegOk g) (st : Style) (hst : B
               rw [this, hst.attr j, hA, Nat.zero_testBit]; rfl
             · show st.color = _; rw [hst.color, hc0]; rfl
             · show st.bgcolor = _; rw [hst.bgcolor, hg0]; rfl
-            · show linkVal (some link) = _; rw [hlinkeq]
+            · rw [hsalink, hlinkeq]
           simp [this, hsty]
         · intro rest
           have e1 := R_oscOpen cfg st g.linkId link (g.text ++ oscClose ++ rest) acc hg.id hlinkOk hlne
@@ -239,11 +272,12 @@ theorem seg_roundtrip (cfg : Cfg) (g : Seg) (hg : SegOk g) (st : Style) (hst : B
         have hneE : (joinWith ';' (ps.map (·.1))).isEmpty = false := by
           cases h : joinWith ';' (ps.map (·.1)) <;> simp [h] at hne ⊢
         refine ⟨oscOpen g.linkId link ++ (sgrOpen (joinWith ';' (ps.map (·.1))) ++ g.text ++ sgrReset) ++ oscClose, ?_, ?_,
-          updateLink cfg.sv Style.null none, [], flushRuns st acc ++ flushRuns st' g.text, ?_, rfl, ?_, ?_⟩
+          updateLink cfg.sv (resetOf cfg st') none, [], flushRuns st acc ++ flushRuns st' g.text, ?_, rfl, ?_, ?_⟩
         · simp [encodeSeg, hsty, hb, renderSeg, htE, hm, hneE, hlk', hlinkeq]
         · exact noCR_append (noCR_append (noCR_oscOpen hidCR hlinkCR)
             (noCR_append (noCR_append (noCR_sgrOpen hbodyCR) (textOk_noCR hg.text)) noCR_sgrReset)) noCR_oscClose
-        · exact blank_updateLink_none cfg.sv inv_null rfl rfl rfl
+        · obtain ⟨r1, r2, r3, r4⟩ := resetOf_facts cfg st'
+          exact blank_updateLink_none cfg.sv r1 r2 r3 r4
         · rw [charsOf_append, charsOf_flushRuns st acc hacc, charsOf_flushRuns st' g.text hg.text,
             obsOpt_orNone_blank hst]
           have : obsOpt (orNone st') = obsOpt (some s) := by
@@ -251,7 +285,7 @@ theorem seg_roundtrip (cfg : Cfg) (g : Seg) (hg : SegOk g) (st : Style) (hst : B
             rw [h1]
             show obsOf st' = obsOf s
             apply obsOf_eq_of_tracks hcan ha' hc' hg'
-            rw [hl']; show linkVal (some link) = _; rw [hlinkeq]
+            rw [hl', hsalink, hlinkeq]
           simp [this, hsty]
         · intro rest
           have e1 := R_oscOpen cfg st g.linkId link
@@ -260,7 +294,7 @@ theorem seg_roundtrip (cfg : Cfg) (g : Seg) (hg : SegOk g) (st : Style) (hst : B
             (ps.map (·.2)) (plist_body_ok ps hpl) hne (sgrCodes_plist cfg ps hpl hps) happ
           have e3 := R_text cfg st' g.text (sgrReset ++ oscClose ++ rest) [] (textOk_noEsc hg.text)
           have e4 := R_reset cfg st' (oscClose ++ rest) ([] ++ g.text)
-          have e5 := R_oscClose cfg Style.null rest []
+          have e5 := R_oscClose cfg (resetOf cfg st') rest []
           simp only [List.append_assoc, List.nil_append] at e1 e2 e3 e4 e5 ⊢
           rw [e1, e2, e3, e4, e5]
           simp [push_push, flushRuns_nil]
@@ -277,9 +311,13 @@ theorem seg_roundtrip (cfg : Cfg) (g : Seg) (hg : SegOk g) (st : Style) (hst : B
         have hneE : (joinWith ';' (ps.map (·.1))).isEmpty = false := by
           cases h : joinWith ';' (ps.map (·.1)) <;> simp [h] at hne ⊢
         refine ⟨sgrOpen (joinWith ';' (ps.map (·.1))) ++ g.text ++ sgrReset, ?_, ?_,
-          Style.null, [], flushRuns st acc ++ flushRuns st' g.text, blank_null, rfl, ?_, ?_⟩
+          resetOf cfg st', [], flushRuns st acc ++ flushRuns st' g.text, ?_, rfl, ?_, ?_⟩
         · simp [encodeSeg, hsty, hb, renderSeg, htE, hm, hneE, hlkF]
         · exact noCR_append (noCR_append (noCR_sgrOpen hbodyCR) (textOk_noCR hg.text)) noCR_sgrReset
+        · have hl0 : strTruthy st'.link = false := by
+            apply strTruthy_of_linkVal_none
+            rw [hl']; simp [linkVal, hst.link]
+          rw [resetOf_nolink cfg hl0]; exact blank_null
         · rw [charsOf_append, charsOf_flushRuns st acc hacc, charsOf_flushRuns st' g.text hg.text,
             obsOpt_orNone_blank hst]
           have : obsOpt (orNone st') = obsOpt (some s) := by
